@@ -24,6 +24,7 @@ import E2P.Spec.ExecSpec
 import E2P.Model.Facade
 import E2P.Spec.FacadeSpec
 import E2P.Generated.Facade
+import E2P.Model.Graph
 import E2P.Generated.RuntimeConsts
 open E2P
 
@@ -463,6 +464,44 @@ def handleFacade (args : List String) : String :=
       | _ => none
     s!"{" ".intercalate model} | {" ".intercalate spec} | "
 
+/-! dependency graphs: `gr <fuel> <nnodes> {u k d₁…d_k} (from <e> | all <n> c₁…c_n)` -/
+def insertSorted (x : Nat) : List Nat → List Nat
+  | [] => [x]
+  | y :: ys => if x ≤ y then x :: y :: ys else y :: insertSorted x ys
+def sortNat (l : List Nat) : List Nat := l.foldr insertSorted []
+
+/-- independent oracle: reachability by iterated closure -/
+def closure (G : DepGraph) (seed : List Nat) : Nat → List Nat
+  | 0 => seed
+  | k + 1 =>
+    let next := (seed.flatMap (depsOf G)).filter (fun v => !seed.contains v)
+    if next.isEmpty then seed else closure G (seed ++ next.eraseDups) k
+
+def reachSet (G : DepGraph) (roots : List Nat) : List Nat := closure G roots.eraseDups (G.length + roots.length + 2)
+def onCycle (G : DepGraph) (c : Nat) : Bool := (reachSet G (depsOf G c)).contains c && !(depsOf G c).isEmpty
+
+def handleGraph (args : List String) : String :=
+  match (do
+    let (fuel, r) ← takeNat args
+    let (n, r) ← takeNat r
+    let (g, r) ← parseMany (fun r => do
+      let (u, r) ← takeNat r
+      let (k, r) ← takeNat r
+      let (ds, r) ← parseMany takeNat k r
+      some ((u, ds), r)) n r
+    match r with
+    | "from" :: r => do let (e, r) ← takeNat r; if r.isEmpty then some (fuel, g, [e], true) else none
+    | "all" :: r => do let (k, r) ← takeNat r; let (cs, r) ← parseMany takeNat k r; if r.isEmpty then some (fuel, g, cs, false) else none
+    | _ => none) with
+  | none => "bad-op"
+  | some (fuel, g, roots, single) =>
+    let res := if single then translateFrom g fuel (roots.headD 0) else translateAll g fuel roots
+    let enc := fun (l : List Nat) => s!"K{l.length} " ++ " ".intercalate ((sortNat l).map toString)
+    let model := match res with | .ok l => enc l | .error e => "E" ++ e.name
+    let rs := reachSet g roots
+    let spec := if rs.any (onCycle g) then "EParser" else enc rs
+    s!"{model} | {spec} | "
+
 def handle (line : String) : String :=
   match tokens line with
   | "echo" :: rest =>
@@ -479,6 +518,7 @@ def handle (line : String) : String :=
   | "ag" :: rest => handleAgg rest
   | "ex" :: rest => handleExec rest
   | "fc" :: rest => handleFacade rest
+  | "gr" :: rest => handleGraph rest
   | _ => "bad-op"
 
 partial def loop (h : IO.FS.Stream) (out : IO.FS.Stream) : IO Unit := do
